@@ -1177,6 +1177,7 @@ static void DecodeBYTE(Word Index) {
                 }
                 if (!RangeCheck(t.Contents.Int, Int8)) {
                     WrError(ErrNum_OverRange);
+                    OK = False;
                 } else if (SetMaxCodeLen(CodeLen + 1)) {
                     WrError(ErrNum_CodeOverflow);
                     OK = False;
